@@ -17,6 +17,8 @@ import (
 	"strings"
 
 	"github.com/open2b/scriggo"
+	"github.com/open2b/scriggo/ast"
+	"github.com/open2b/scriggo/ast/astutil"
 
 	"verif/core"
 	"verif/gen/tmplfiles"
@@ -34,6 +36,10 @@ type refSpec struct {
 	Kind    string `json:"kind"` // extends | import | render
 	Path    string `json:"path"` // the path as written in the template
 	Default bool   `json:"default,omitempty"`
+	// Written, if not empty, is the path written in the template; an
+	// UnexpandedTransformer then sets the path of the node to Path before
+	// the file is loaded (such paths are not validated by the parser).
+	Written string `json:"written,omitempty"`
 }
 
 type fileSpec struct {
@@ -44,6 +50,7 @@ type fileSpec struct {
 
 type caseData struct {
 	Root     string            `json:"root"`
+	RootName string            `json:"root_name,omitempty"` // name passed to BuildTemplate if not Root: a form that is not a valid rooted path
 	FormatFS bool              `json:"format_fs"`
 	Specs    []fileSpec        `json:"specs"` // the reference graph (what the oracle reads)
 	Files    map[string]string `json:"files"` // the rendered template files (what scriggo reads)
@@ -159,6 +166,14 @@ func analyse(cd *caseData) verdict {
 		stack = append(stack, name)
 		for _, ref := range specs[name].Refs {
 			if !validRef(ref.Path) {
+				if ref.Written != "" {
+					// set by a transformer, so not a syntax error: it names no
+					// file of the file system
+					if !(ref.Kind == "render" && ref.Default) {
+						v.errs["rewritten-invalid"] = true
+					}
+					continue
+				}
 				v.errs["invalid"] = true
 				continue
 			}
@@ -210,7 +225,29 @@ func (prop) Work(c core.Case) core.Result {
 		return res
 	}
 	v := analyse(&cd)
-	_, o := tmplfiles.Build(fsys, cd.Root, &scriggo.BuildOptions{MarkdownConverter: tmplfiles.MarkdownConverter})
+	opts := &scriggo.BuildOptions{MarkdownConverter: tmplfiles.MarkdownConverter}
+	rewrite := map[string]string{}
+	for _, sp := range cd.Specs {
+		for _, ref := range sp.Refs {
+			if ref.Written != "" {
+				rewrite[ref.Written] = ref.Path
+			}
+		}
+	}
+	if len(rewrite) > 0 {
+		opts.UnexpandedTransformer = func(tree *ast.Tree) error {
+			astutil.Walk(rewriter(rewrite), tree)
+			return nil
+		}
+	}
+	rootName := cd.Root
+	if cd.RootName != "" {
+		// the name is not a valid rooted path: the build must fail and the name must not reach the file system
+		rootName = cd.RootName
+		v.errs = map[string]bool{"invalid-root": true}
+		v.allowed = map[string]bool{}
+	}
+	_, o := tmplfiles.Build(fsys, rootName, opts)
 	if strings.Contains(o.Panic, "recfs:") {
 		return fail("the loader does not terminate: one file was opened more than %d times in one build (model: %v)", rec.Limit, keys(v.errs))
 	}
@@ -251,7 +288,7 @@ func (prop) Work(c core.Case) core.Result {
 		return fail("the model reaches %v from the root (escaping references: %v) but BuildTemplate succeeded", classes, v.escapeRefs)
 	case !shouldFail && o.BuildErr != "":
 		return fail("every reference reachable from the root resolves to an existing file inside the root and there is no cycle, but BuildTemplate failed: %s", o.BuildErr)
-	case o.BuildErr != "" && !o.BuildIsBE:
+	case o.BuildErr != "" && !o.BuildIsBE && cd.RootName == "":
 		return fail("BuildTemplate failed with a %T that is not a *scriggo.BuildError: %s (model: %v)", o.BuildError, o.BuildErr, classes)
 	}
 	if !shouldFail {
@@ -268,6 +305,9 @@ func (prop) Work(c core.Case) core.Result {
 			continue
 		}
 		for _, r := range s.Refs {
+			if r.Written != "" {
+				forms["rewritten"] = true
+			}
 			switch {
 			case !validRef(r.Path):
 				forms["invalid"] = true
@@ -291,6 +331,9 @@ func (prop) Work(c core.Case) core.Result {
 	b := len(opens)
 	if b > 6 {
 		b = 6 + (b-6)/3
+	}
+	if cd.RootName != "" {
+		forms["invalid-root"] = true
 	}
 	res.Sigs = []string{core.SigJoin(fmt.Sprintf("formatfs=%v", cd.FormatFS), result, strings.Join(classes, "+"), strings.Join(keys(forms), ","), fmt.Sprintf("opens%d", b))}
 	res.Counts["builds_"+result]++
@@ -321,6 +364,7 @@ type tgen struct {
 	specs []*fileSpec
 	byRol map[string][]*fileSpec
 	noOdd bool
+	nrw   int
 }
 
 func (g *tgen) newFile(role, ext string) *fileSpec {
@@ -432,6 +476,20 @@ func genCase(r *rand.Rand, noOdd bool) caseData {
 			}
 			ref.Path = g.pathTo(from.Name, t.Name)
 		}
+		if !clean && r.Intn(8) == 0 && validRef(ref.Path) {
+			// the template names a harmless unique path; a transformer sets the
+			// real one, in 1 of 3 cases an absolute path that is not valid and
+			// that the parser would have rejected
+			g.nrw++
+			ref.Written = fmt.Sprintf("rewritten%d.html", g.nrw)
+			if r.Intn(3) == 0 {
+				base := "secret.html"
+				if t != nil && r.Intn(2) == 0 {
+					base = t.Name
+				}
+				ref.Path = []string{"/../" + base, "/../../" + base, "/a/../../" + base, "/./" + base, "//" + base, "/" + base + "/", "/.."}[r.Intn(7)]
+			}
+		}
 		from.Refs = append(from.Refs, ref)
 	}
 	for _, f := range g.specs {
@@ -461,6 +519,12 @@ func genCase(r *rand.Rand, noOdd bool) caseData {
 		}
 	}
 	cd := caseData{Root: page.Name, FormatFS: r.Intn(2) == 0, Files: map[string]string{}}
+	if r.Intn(14) == 0 {
+		// a root name that is not a valid rooted path, mostly one that a lenient
+		// file system would resolve to the page
+		n := page.Name
+		cd.RootName = []string{"../" + n, "/" + n, "./" + n, "x/../" + n, strings.Replace("x/"+n, "/", "//", 1), n + "/", "", ".", "..", "a/./" + n, n + "/."}[r.Intn(11)]
+	}
 	for _, f := range g.specs {
 		cd.Specs = append(cd.Specs, *f)
 		cd.Files[f.Name] = renderFile(f, len(cd.Specs))
@@ -477,9 +541,9 @@ func renderFile(f *fileSpec, n int) string {
 	for _, ref := range f.Refs {
 		switch ref.Kind {
 		case "extends":
-			fmt.Fprintf(&b, "{%% extends %q %%}\n", ref.Path)
+			fmt.Fprintf(&b, "{%% extends %q %%}\n", ref.written())
 		case "import":
-			fmt.Fprintf(&b, "{%% import %q %%}\n", ref.Path)
+			fmt.Fprintf(&b, "{%% import %q %%}\n", ref.written())
 		}
 	}
 	for _, ref := range f.Refs {
@@ -493,13 +557,42 @@ func renderFile(f *fileSpec, n int) string {
 	fmt.Fprintf(&b, "text of %s ", f.Role)
 	for _, ref := range renders {
 		if ref.Default {
-			fmt.Fprintf(&b, "[{{ render %q default \"\" }}]", ref.Path)
+			fmt.Fprintf(&b, "[{{ render %q default \"\" }}]", ref.written())
 		} else {
-			fmt.Fprintf(&b, "[{{ render %q }}]", ref.Path)
+			fmt.Fprintf(&b, "[{{ render %q }}]", ref.written())
 		}
 	}
 	if decl {
 		b.WriteString("{% end macro %}\n")
 	}
 	return b.String()
+}
+
+func (r refSpec) written() string {
+	if r.Written != "" {
+		return r.Written
+	}
+	return r.Path
+}
+
+// rewriter is the visitor of the UnexpandedTransformer: it sets the paths of
+// the extends/import/render nodes listed in the map.
+type rewriter map[string]string
+
+func (rw rewriter) Visit(node ast.Node) astutil.Visitor {
+	switch n := node.(type) {
+	case *ast.Extends:
+		if p, ok := rw[n.Path]; ok {
+			n.Path = p
+		}
+	case *ast.Import:
+		if p, ok := rw[n.Path]; ok {
+			n.Path = p
+		}
+	case *ast.Render:
+		if p, ok := rw[n.Path]; ok {
+			n.Path = p
+		}
+	}
+	return rw
 }
